@@ -57,6 +57,9 @@ func (p OracleRequestPacketData) ValidateBasic() error {
 	if !p.FeeLimit.IsValid() {
 		return sdkerrors.ErrInvalidCoins.Wrap(p.FeeLimit.String())
 	}
+	if _, ok := Encoder_name[int32(p.TSSEncoder)]; !ok {
+		return ErrInvalidOracleEncoder.Wrapf("invalid encoder type: %d", p.TSSEncoder)
+	}
 	return nil
 }
 
